@@ -144,6 +144,7 @@ class PollScript(object):
 
     def __init__(self, w, li, p):
         self.script = p.get("poll_script", ["yield"])
+        self.li = li
         self.calls = []
         self.active = 0
         self.max_active = 0
@@ -168,7 +169,9 @@ class PollScript(object):
                     d.yield_result(("polled", d.result))
             elif e == "err":
                 for d in descriptors:
-                    d.yield_exception(EXC["E1"]("pollerr#%d" % i))
+                    exc = EXC["E1"]("pollerr#%d" % i)
+                    s.ev("pollerr", self.li, i, vname(exc))
+                    d.yield_exception(exc)
             elif isinstance(e, (int, float)):
                 return e
             return None
@@ -218,13 +221,14 @@ def run_clients(desc, s, w, ctx):
             for op in ops:
                 k = op[0]
                 if k == "submit":
-                    _, key, script = op
+                    _, key, script = op[:3]
+                    kw = op[3] if len(op) > 3 else {}
                     fn = w.fn(key, [list(map(tuple, b)) for b in script])
                     s.yield_point("api")
                     s.ev("call", "submit", key)
                     t0 = s.now
                     try:
-                        f = ex.submit(fn, key)
+                        f = ex.submit(fn, key, **kw)
                     except core.Abort:
                         raise
                     except BaseException as e:
